@@ -297,6 +297,19 @@ package ocimem
 //@   modifies nothing
 //@   log
 //@   requires repoWF(repo) && iter != nil
+// The callback refersTo hands to the iterator: a hit (direct, or inside a
+// nested manifest) and an error both end the search at once, so a later
+// sibling can never overwrite them; the search goes on only while nothing has
+// been found.
+// (nothing found yet when it is called: true when the callback is created,
+// re-established by every call that asks to continue, and a descIter does not
+// call again after being told to stop: the iterator protocol, checked of the
+// iterators of this package under C14)
+//@ func refersTo$1
+//@   holds Registry.mu
+//@   requires repoWF(repo) && !found && retErr == nil
+//@   ensures[a-direct-hit-is-recorded-and-stops-the-search] info.desc.Digest == digest ==> found && !result
+//@   ensures[the-search-continues-only-while-nothing-is-found] result ==> !found && retErr == nil
 
 // (trusted: the table manifestIterators holds functions that return a
 // non-nil iterator or an error)
